@@ -238,8 +238,9 @@ def check_state_run(state, run, acc, hist):
                                     f"{run}: after a successful run the user's input file is not the conversion of the original input "
                                     f"(directory held {leftovers[:6]})", case))
         tsv = f"1:{run['pin']}.pin.tsv"
-        if tsv in after:
-            acc.violation(Violation("cli-leaves-intermediate-files", f"{tsv} remains after a successful run", case))
+        if tsv in after and after[tsv] != state.get(tsv):
+            # (an untouched <pin>.tsv of an earlier, interrupted run is not an intermediate file of THIS run)
+            acc.violation(Violation("cli-leaves-intermediate-files", f"{tsv} written by this run remains after it succeeded", case))
     _AFTER[0] = after
     return "ok", trace
 
@@ -304,11 +305,12 @@ def run(ctx):
         depth_plan = [(kinds_full, None, None), (("kill-after", "torn"), 30, None), (("kill-after",), 6, 1500), ((), None, 400)]
     states = {faults.state_key(initial): (initial, [])}
     frontier = [faults.state_key(initial)]
+    priority = set()  # states always evaluated first: a stale <pin>.tsv next to a re-exported (already valid) input
     save, ctx.seed = ctx.seed, 0
     levels = []
     for depth, (kinds, cap, eval_cap) in enumerate(depth_plan):
         # deterministic order: states with the most leftover files first (most likely to interfere)
-        frontier = sorted(frontier, key=lambda k: (-len(states[k][0]), k))
+        frontier = sorted(frontier, key=lambda k: (k not in priority, -len(states[k][0]), k))
         evaluate = frontier
         if eval_cap is not None and len(frontier) > eval_cap:
             evaluate = frontier[:eval_cap]
@@ -331,6 +333,19 @@ def run(ctx):
             if k not in states:
                 states[k] = (st, hist)
                 nxt.append(k)
+            # user action on every new state that holds a leftover of an interrupted conversion: the input file is
+            # re-exported as an already rectangular table (no run involved, so this costs nothing)
+            for name in ("r1", "r2"):
+                if f"1:{name}.pin.tsv" in st:
+                    st2 = dict(st)
+                    st2[f"1:{name}.pin"] = reference_tsv(e.pins[name]).encode()
+                    k2 = faults.state_key(st2)
+                    if k2 not in states:
+                        run_cli = next(r for r in RUNS if r["kind"] == "cli" and r["pin"] == name)
+                        states[k2] = (st2, hist + [{"run": run_cli, "fault": [-2, "user-reexport", [f"1:{name}.pin"]]}])
+                        nxt.append(k2)
+                        priority.add(k2)
+                        ctx.acc.count("transitions")
         levels.append({"depth": depth, "states_at_depth": len(frontier), "evaluated": len(evaluate), "expanded": len(expand),
                        "fault_kinds": list(kinds), "new_states": len(nxt)})
         frontier = nxt
